@@ -1623,7 +1623,13 @@ fn build_font(cx: &mut Ctx, rng: &mut Rng, dir: Option<&Directed>) -> Result<Bui
     let n_fd = match flavour {
         Flavour::Name => 1,
         Flavour::Cid => 1 + rng.below(4),
-        Flavour::Cff2 => 1 + rng.small(2),
+        Flavour::Cff2 => {
+            if dir.is_some() {
+                1
+            } else {
+                1 + rng.small(2)
+            }
+        }
     };
     let fd_vsindex_opt: Vec<Option<u16>> = (0..n_fd)
         .map(|_| match &vstore {
@@ -2155,7 +2161,7 @@ impl C18 {
 
     fn report_panic(&self, cx: &mut Ctx, b: &Built, gid: usize, ti: usize, tuple: Option<&Vec<i16>>, what: &str, p: PanicInfo) {
         let (exp, _) = self.expected_for(b, gid, ti);
-        let sig = self.sig(b, gid, "panic", "");
+        let sig = self.sig(b, gid, ti, "panic", "");
         self.report(cx, b, gid, tuple, Failure {
             rule: "panic",
             sig: format!("{} [{}]", what, sig),
@@ -2167,7 +2173,7 @@ impl C18 {
     }
 
     /// Narrow, stable defect-class signature from the features of the failing glyph.
-    fn sig(&self, b: &Built, gid: usize, kind: &str, tag: &str) -> String {
+    fn sig(&self, b: &Built, gid: usize, ti: usize, kind: &str, tag: &str) -> String {
         let s = &b.slots[gid];
         let g = match &s.glyph {
             Some(g) => g,
@@ -2198,30 +2204,112 @@ impl C18 {
             }
             return format!("seac:{}:{}", kind, tag);
         }
-        if b.flavour == Flavour::Cff2 {
-            if s.fd != 0 && (s.stats.local_calls > 0 || (!g.explicit_vsindex && b.fd_vsindex[s.fd] != b.fd_vsindex[0])) {
+        // Triage by ablation: the same flat (call free) program alone in a single Font DICT font. When
+        // that passes, the failure belongs to subroutine / Font DICT selection, otherwise to the
+        // operator semantics themselves.
+        let flat = self.retest_flat(b, gid, ti);
+        let uses_subrs = s.stats.local_calls + s.stats.global_calls > 0;
+        let fd_feature = match b.flavour {
+            Flavour::Cff2 => s.fd != 0 && (s.stats.local_calls > 0 || (!g.explicit_vsindex && b.fd_vsindex[s.fd] != b.fd_vsindex[0])),
+            Flavour::Cid => s.fd != 0 && s.stats.local_calls > 0,
+            Flavour::Name => false,
+        };
+        // flat passes: structural. flat fails in the same way: intrinsic to the program. flat fails in
+        // another way (a second defect got in the way): structural when a structural feature is there.
+        let structural = match &flat {
+            Some(Ok(())) => true,
+            Some(Err(k)) if k == kind => false,
+            Some(Err(_)) => fd_feature || uses_subrs,
+            None => false,
+        };
+        if structural {
+            if b.flavour == Flavour::Cff2 && s.fd != 0 {
                 return format!("cff2-nonzero-fd:{}", kind);
             }
-            if s.enc.as_ref().map_or(false, |e| e.max_args > 48) && kind.starts_with("err") {
+            if b.flavour == Flavour::Cid && s.fd != 0 && s.stats.local_calls > 0 {
+                return format!("cid-local-subr-fd:{}", kind);
+            }
+            if uses_subrs {
+                let sp = if s.stats.local_calls > 0 { &b.locals[s.fd] } else { &b.global };
+                return format!("subrs:bias-{}:{}", cffw::subr_bias(sp.count), kind);
+            }
+            return format!("font-structure:{}:{}", kind, tag);
+        }
+        if b.flavour == Flavour::Cff2 {
+            if s.enc.as_ref().map_or(false, |e| e.max_args > 48) && kind != "path" {
                 return format!("cff2-args>48:{}", kind);
             }
             if g.contours.is_empty() && kind == "path" {
                 return "cff2-empty-glyph".to_string();
             }
         }
-        if b.flavour == Flavour::Cid && s.stats.local_calls > 0 && s.fd != 0 {
-            return format!("cid-local-subr-fd:{}:{}", kind, tag);
-        }
         let mut sig = format!("{}:{}", kind, tag);
-        if kind.starts_with("err") {
-            if s.stats.local_calls + s.stats.global_calls > 0 {
-                let sp = if s.stats.local_calls > 0 { &b.locals[s.fd] } else { &b.global };
-                sig.push_str(&format!(":subrs:bias-{}", cffw::subr_bias(sp.count)));
-            } else if g.hints.as_ref().map_or(false, |h| h.masks) {
-                sig.push_str(":hintmask");
-            }
+        if kind != "path" && g.hints.as_ref().map_or(false, |h| h.masks) {
+            sig.push_str(":hintmask");
         }
         sig
+    }
+
+    /// Visit the flat program of glyph `gid` as glyph 1 of a fresh single Font DICT font without
+    /// subroutines and compare with the same expected path. None: not applicable.
+    fn retest_flat(&self, b: &Built, gid: usize, ti: usize) -> Option<Result<(), String>> {
+        let s = &b.slots[gid];
+        let g = s.glyph.as_ref()?;
+        if g.seac.is_some() {
+            return None;
+        }
+        let flat = cffw::toks_bytes(&s.enc.as_ref()?.toks);
+        let (exp, _) = self.expected_for(b, gid, ti);
+        let mut rec = Rec::default();
+        let res: Result<(), String> = if b.flavour == Flavour::Cff2 {
+            let bytes = cffw::Cff2Font {
+                glyphs: vec![Vec::new(), flat],
+                global_subrs: Vec::new(),
+                fds: vec![cffw::Cff2Private { local_subrs: None, vsindex: Some(g.vsindex as u16), extra: Vec::new() }],
+                fd_select: None,
+                vstore: b.vstore.clone(),
+                off_size: None,
+                with_font_matrix: false,
+            }
+            .build();
+            let fvar_bytes = cffw::fvar_table(b.vstore.as_ref().map_or(0, |v| v.axis_count));
+            let fvar = ReadScope::new(&fvar_bytes).read::<FvarTable<'_>>().ok()?;
+            let owned = match (&b.vstore, b.tuples_raw.get(ti)) {
+                (Some(_), Some(t)) => {
+                    let vals: Vec<F2Dot14> = t.iter().map(|&v| F2Dot14::from_raw(v)).collect();
+                    Some(fvar.owned_tuple(&vals)?)
+                }
+                _ => None,
+            };
+            catch(|| {
+                let cff2 = ReadScope::new(&bytes).read::<CFF2<'_>>().map_err(|e| format!("{:?}", e))?;
+                let mut o = CFF2Outlines { table: &cff2, tuple: owned.as_ref() };
+                o.visit(1, &mut rec).map_err(|e| format!("{:?}", e))
+            })
+            .unwrap_or_else(|_| Err("panic".to_string()))
+        } else {
+            let bytes = cffw::CffFont {
+                name: b"Flat".to_vec(),
+                glyphs: vec![vec![op::ENDCHAR], flat],
+                global_subrs: Vec::new(),
+                kind: cffw::CffKind::NameKeyed { private: cffw::Private::default(), charset: cffw::Charset::IsoAdobe { explicit_op: false } },
+                strings: Vec::new(),
+                off_size: None,
+                with_bbox: true,
+            }
+            .build();
+            catch(|| {
+                let mut cff = ReadScope::new(&bytes).read::<CFF<'_>>().map_err(|e| format!("{:?}", e))?;
+                cff.visit(1, &mut rec).map_err(|e| format!("{:?}", e))
+            })
+            .unwrap_or_else(|_| Err("panic".to_string()))
+        };
+        // same vocabulary as the `kind` of the original failure: "panic", "err:<Variant>", "path"
+        Some(match res {
+            Err(e) if e == "panic" => Err(e),
+            Err(e) => Err(format!("err:{}", e.split(|c: char| c == '(' || c == ' ').next().unwrap_or(""))),
+            Ok(()) => compare_paths(&exp, &rec.0, g.all_integer()).map(|_| ()).map_err(|_| "path".to_string()),
+        })
     }
 
     fn expected_for(&self, b: &Built, gid: usize, ti: usize) -> (Vec<ECmd>, Vec<(usize, Src)>) {
@@ -2268,7 +2356,7 @@ impl C18 {
         let obs_s: Vec<String> = obs.iter().map(show_ocmd).collect();
         if let Err(e) = result {
             let variant = e.split(|c: char| c == '(' || c == ' ').next().unwrap_or("").to_string();
-            let sig = self.sig(b, gid, &format!("err:{}", variant), "");
+            let sig = self.sig(b, gid, ti, &format!("err:{}", variant), "");
             self.report(cx, b, gid, tuple, Failure {
                 rule: "visit-error",
                 sig,
@@ -2297,7 +2385,7 @@ impl C18 {
                     Some(&(p, (ci, None))) => b.slots[p].enc.as_ref().and_then(|e| e.move_tags.get(ci)).copied().unwrap_or("?"),
                     None => "trailing",
                 };
-                let sig = self.sig(b, gid, "path", tag);
+                let sig = self.sig(b, gid, ti, "path", tag);
                 self.report(cx, b, gid, tuple, Failure { rule: "path-mismatch", sig, what, expected: exp_s, observed: obs_s, panic: None });
                 false
             }
@@ -2315,6 +2403,10 @@ impl C18 {
                 return;
             }
         };
+        self.check(cx, b);
+    }
+
+    fn check(&mut self, cx: &mut Ctx, b: Built) {
         for c in &b.classes {
             cx.class(c);
         }
@@ -2483,6 +2575,336 @@ impl C18 {
     }
 }
 
+// ---------------------------------------------------------------------------------------------
+// Hand written minimal programs (replayed by `exhaustive` on every run): one per operator form with
+// the expected path taken from TN 5177, plus the minimal witnesses of the defects found so far.
+// ---------------------------------------------------------------------------------------------
+
+fn ti(v: i64) -> Tok {
+    Tok::int(v, cffw::int_encodings(v)[0]).unwrap_or_else(|| Tok::fixed(0))
+}
+fn to(o: u8) -> Tok {
+    Tok::op(o)
+}
+fn ints(vs: &[i64], o: Tok) -> Vec<Tok> {
+    let mut t: Vec<Tok> = vs.iter().map(|&v| ti(v)).collect();
+    t.push(o);
+    t
+}
+fn ln(dx: i64, dy: i64) -> Seg {
+    Seg::Line([Val::int(dx), Val::int(dy)])
+}
+fn cv(v: [i64; 6]) -> Seg {
+    Seg::Curve([Val::int(v[0]), Val::int(v[1]), Val::int(v[2]), Val::int(v[3]), Val::int(v[4]), Val::int(v[5])])
+}
+fn contour(x: i64, y: i64, segs: Vec<Seg>) -> Contour {
+    Contour { start: [Val::int(x), Val::int(y)], segs }
+}
+
+struct WGlyph {
+    glyph: Glyph,
+    toks: Vec<Tok>,
+    fd: usize,
+    tag: &'static str,
+    classes: Vec<&'static str>,
+    local_calls: u32,
+    /// call free equivalent of `toks` (None: `toks` is already flat)
+    flat: Option<Vec<Tok>>,
+}
+
+impl WGlyph {
+    fn new(glyph: Glyph, toks: Vec<Tok>, tag: &'static str) -> WGlyph {
+        WGlyph { glyph, toks, fd: 0, tag, classes: Vec::new(), local_calls: 0, flat: None }
+    }
+}
+
+/// Serialise hand written glyphs; unnamed positions are filled with empty glyphs.
+fn mk_built(flavour: Flavour, n_glyphs: usize, at: Vec<(usize, WGlyph)>, locals: Vec<SubrSpace>, global: SubrSpace, iso_adobe: bool) -> Built {
+    let cff2 = flavour == Flavour::Cff2;
+    let n_fd = locals.len().max(1);
+    let mut slots: Vec<Slot> = (0..n_glyphs)
+        .map(|_| Slot { glyph: None, fd: 0, enc: None, main: Vec::new(), stats: Default::default(), tuples: vec![Vec::new()], k: None })
+        .collect();
+    for (pos, w) in at {
+        let s = &mut slots[pos];
+        let nc = w.glyph.contours.len();
+        s.enc = Some(Encoded {
+            toks: w.flat.clone().unwrap_or_else(|| w.toks.clone()),
+            classes: w.classes.iter().map(|c| c.to_string()).collect(),
+            seg_tags: w.glyph.contours.iter().map(|c| vec![w.tag; c.segs.len()]).collect(),
+            move_tags: vec!["moveto"; nc],
+            max_args: 0,
+        });
+        s.main = w.toks;
+        s.fd = w.fd;
+        s.stats.local_calls = w.local_calls;
+        s.glyph = Some(w.glyph);
+    }
+    let glyph_bytes: Vec<Vec<u8>> =
+        slots.iter().map(|s| if s.enc.is_some() { cffw::toks_bytes(&s.main) } else if cff2 { Vec::new() } else { vec![op::ENDCHAR] }).collect();
+    let filler = |_: usize| -> Vec<u8> { if cff2 { Vec::new() } else { vec![op::RETURN] } };
+    let global_vecs = global.to_vecs(&filler);
+    let local_vecs: Vec<Option<Vec<Vec<u8>>>> = locals.iter().map(|l| if l.count == 0 { None } else { Some(l.to_vecs(&filler)) }).collect();
+    let fd_bytes: Vec<u8> = slots.iter().map(|s| s.fd as u8).collect();
+    let private = |i: usize| cffw::Private { local_subrs: local_vecs.get(i).cloned().flatten(), default_width_x: Some(500), nominal_width_x: Some(600), extra: Vec::new() };
+    let bytes = match flavour {
+        Flavour::Name => cffw::CffFont {
+            name: b"VerifC18W".to_vec(),
+            glyphs: glyph_bytes,
+            global_subrs: global_vecs,
+            kind: cffw::CffKind::NameKeyed {
+                private: private(0),
+                charset: if iso_adobe {
+                    cffw::Charset::IsoAdobe { explicit_op: false }
+                } else {
+                    cffw::Charset::Custom { format: 0, ids: (1..n_glyphs as u16).map(|g| cffw::N_STD_STRINGS + g).collect() }
+                },
+            },
+            strings: (0..n_glyphs).map(|g| format!("g{}", g).into_bytes()).collect(),
+            off_size: None,
+            with_bbox: true,
+        }
+        .build(),
+        Flavour::Cid => cffw::CffFont {
+            name: b"VerifC18W".to_vec(),
+            glyphs: glyph_bytes,
+            global_subrs: global_vecs,
+            kind: cffw::CffKind::CidKeyed { fds: (0..n_fd).map(private).collect(), fd_select: fd_bytes, fdselect_format: 3, charset_format: 2 },
+            strings: Vec::new(),
+            off_size: None,
+            with_bbox: false,
+        }
+        .build(),
+        Flavour::Cff2 => cffw::Cff2Font {
+            glyphs: glyph_bytes,
+            global_subrs: global_vecs,
+            fds: (0..n_fd).map(|i| cffw::Cff2Private { local_subrs: local_vecs.get(i).cloned().flatten(), vsindex: None, extra: Vec::new() }).collect(),
+            fd_select: if n_fd > 1 { Some((0, fd_bytes)) } else { None },
+            vstore: None,
+            off_size: None,
+            with_font_matrix: false,
+        }
+        .build(),
+    };
+    let locals = if locals.is_empty() { vec![SubrSpace::empty()] } else { locals };
+    Built {
+        flavour,
+        bytes,
+        slots,
+        fd_vsindex: vec![0; locals.len()],
+        locals,
+        global,
+        vstore: None,
+        tuples_raw: Vec::new(),
+        iso_adobe,
+        classes: vec![format!("flavour:{}", flavour.name()), "handwritten".to_string()],
+    }
+}
+
+fn handwritten() -> Vec<(&'static str, Built)> {
+    let mut out: Vec<(&'static str, Built)> = Vec::new();
+    let mv = |x: i64, y: i64| ints(&[x, y], to(op::RMOVETO));
+    let simple = |segs: Vec<Seg>, body: Vec<Tok>, tag: &'static str, flavour: Flavour| -> Built {
+        let mut toks = mv(10, 20);
+        toks.extend(body);
+        if flavour != Flavour::Cff2 {
+            toks.push(to(op::ENDCHAR));
+        }
+        let g = Glyph { contours: vec![contour(10, 20, segs)], ..Default::default() };
+        mk_built(flavour, 2, vec![(1, WGlyph::new(g, toks, tag))], Vec::new(), SubrSpace::empty(), false)
+    };
+    // operator forms, arguments as in TN 5177 section 4.1 / 4.2 (1.. = distinct small primes for traceability)
+    let forms: Vec<(&'static str, Vec<Seg>, Vec<Tok>)> = vec![
+        ("rlineto", vec![ln(1, 2), ln(3, 5)], ints(&[1, 2, 3, 5], to(op::RLINETO))),
+        ("hlineto", vec![ln(1, 0), ln(0, 2), ln(3, 0)], ints(&[1, 2, 3], to(op::HLINETO))),
+        ("vlineto", vec![ln(0, 1), ln(2, 0), ln(0, 3), ln(5, 0)], ints(&[1, 2, 3, 5], to(op::VLINETO))),
+        ("rrcurveto", vec![cv([1, 2, 3, 5, 7, 11]), cv([13, 17, 19, 23, 29, 31])], ints(&[1, 2, 3, 5, 7, 11, 13, 17, 19, 23, 29, 31], to(op::RRCURVETO))),
+        ("hhcurveto+dy1", vec![cv([2, 1, 3, 5, 7, 0]), cv([11, 0, 13, 17, 19, 0])], ints(&[1, 2, 3, 5, 7, 11, 13, 17, 19], to(op::HHCURVETO))),
+        ("vvcurveto+dx1", vec![cv([1, 2, 3, 5, 0, 7]), cv([0, 11, 13, 17, 0, 19])], ints(&[1, 2, 3, 5, 7, 11, 13, 17, 19], to(op::VVCURVETO))),
+        ("hvcurveto+tail", vec![cv([1, 0, 2, 3, 7, 5])], ints(&[1, 2, 3, 5, 7], to(op::HVCURVETO))),
+        ("vhcurveto+tail", vec![cv([0, 1, 2, 3, 5, 7])], ints(&[1, 2, 3, 5, 7], to(op::VHCURVETO))),
+        (
+            "hvcurveto+chain",
+            vec![cv([1, 0, 2, 3, 0, 5]), cv([0, 7, 11, 13, 17, 0]), cv([19, 0, 23, 29, 37, 31])],
+            ints(&[1, 2, 3, 5, 7, 11, 13, 17, 19, 23, 29, 31, 37], to(op::HVCURVETO)),
+        ),
+        (
+            "vhcurveto+chain",
+            vec![cv([0, 1, 2, 3, 5, 0]), cv([7, 0, 11, 13, 19, 17])],
+            ints(&[1, 2, 3, 5, 7, 11, 13, 17, 19], to(op::VHCURVETO)),
+        ),
+        ("rcurveline", vec![cv([1, 2, 3, 5, 7, 11]), ln(13, 17)], ints(&[1, 2, 3, 5, 7, 11, 13, 17], to(op::RCURVELINE))),
+        ("rlinecurve", vec![ln(1, 2), ln(3, 5), cv([7, 11, 13, 17, 19, 23])], ints(&[1, 2, 3, 5, 7, 11, 13, 17, 19, 23], to(op::RLINECURVE))),
+        (
+            "flex",
+            vec![cv([1, 2, 3, 5, 7, 11]), cv([13, 17, 19, 23, 29, 31])],
+            ints(&[1, 2, 3, 5, 7, 11, 13, 17, 19, 23, 29, 31, 50], Tok::op2(op::FLEX)),
+        ),
+        ("hflex", vec![cv([1, 0, 2, 3, 5, 0]), cv([7, 0, 11, -3, 13, 0])], ints(&[1, 2, 3, 5, 7, 11, 13], Tok::op2(op::HFLEX))),
+        ("hflex1", vec![cv([1, 2, 3, 5, 7, 0]), cv([11, 0, 13, 17, 19, -24])], ints(&[1, 2, 3, 5, 7, 11, 13, 17, 19], Tok::op2(op::HFLEX1))),
+        // |dx| = 1+3+7+13+19 = 43 > |dy| = 2+5+11+17+23 = 58 ? no -> last argument is dy6, dx6 = -43
+        ("flex1:dy", vec![cv([1, 2, 3, 5, 7, 11]), cv([13, 17, 19, 23, -43, 29])], ints(&[1, 2, 3, 5, 7, 11, 13, 17, 19, 23, 29], Tok::op2(op::FLEX1))),
+        // |dx| = 10+30+70+13+19 = 142 > |dy| = 58 -> last argument is dx6, dy6 = -58
+        ("flex1:dx", vec![cv([10, 2, 30, 5, 70, 11]), cv([13, 17, 19, 23, 29, -58])], ints(&[10, 2, 30, 5, 70, 11, 13, 17, 19, 23, 29], Tok::op2(op::FLEX1))),
+    ];
+    for (tag, segs, toks) in forms {
+        out.push((tag, simple(segs.clone(), toks.clone(), tag, Flavour::Name)));
+        out.push((tag, simple(segs, toks, tag, Flavour::Cff2)));
+    }
+
+    // --- minimal witnesses of the candidate defects -------------------------------------------
+    let base_a = || Glyph { contours: vec![contour(10, 20, vec![ln(30, 40)])], ..Default::default() };
+    let acute = || Glyph { contours: vec![contour(5, 5, vec![ln(1, 2)])], ..Default::default() };
+    let base_toks = || [mv(10, 20), ints(&[30, 40], to(op::RLINETO)), vec![to(op::ENDCHAR)]].concat();
+    let acute_toks = || [mv(5, 5), ints(&[1, 2], to(op::RLINETO)), vec![to(op::ENDCHAR)]].concat();
+    let seac = |b: u8, a: u8, width: Option<i64>| Glyph {
+        seac: Some(Seac {
+            adx: Val::int(100),
+            ady: Val::int(200),
+            bchar: b,
+            achar: a,
+            base: cffw::standard_encoding_sid(b) as usize,
+            accent: cffw::standard_encoding_sid(a) as usize,
+        }),
+        width,
+        ..Default::default()
+    };
+    // W1: seac (endchar with four operands) without a width: 100 200 65 194 endchar
+    out.push((
+        "witness:seac-without-width",
+        mk_built(
+            Flavour::Name,
+            150,
+            vec![
+                (1, WGlyph::new(seac(65, 194, None), ints(&[100, 200, 65, 194], to(op::ENDCHAR)), "seac")),
+                (34, WGlyph::new(base_a(), base_toks(), "rlineto")),
+                (125, WGlyph::new(acute(), acute_toks(), "rlineto")),
+            ],
+            Vec::new(),
+            SubrSpace::empty(),
+            true,
+        ),
+    ));
+    // W2: base character code 245 (dotlessi, SID 145) in a font with the ISOAdobe charset
+    out.push((
+        "witness:seac-isoadobe-dotlessi",
+        mk_built(
+            Flavour::Name,
+            150,
+            vec![
+                (1, WGlyph::new(seac(245, 194, Some(50)), ints(&[50, 100, 200, 245, 194], to(op::ENDCHAR)), "seac")),
+                (145, WGlyph::new(base_a(), base_toks(), "rlineto")),
+                (125, WGlyph::new(acute(), acute_toks(), "rlineto")),
+            ],
+            Vec::new(),
+            SubrSpace::empty(),
+            true,
+        ),
+    ));
+    // W3: composite with width, base glyph with its own width on rmoveto
+    {
+        let mut bg = base_a();
+        bg.width = Some(30);
+        let mut bw = WGlyph::new(bg, [ints(&[30, 10, 20], to(op::RMOVETO)), ints(&[30, 40], to(op::RLINETO)), vec![to(op::ENDCHAR)]].concat(), "rlineto");
+        bw.classes = vec!["width-prefix:rmoveto"];
+        out.push((
+            "witness:seac-component-width",
+            mk_built(
+                Flavour::Name,
+                150,
+                vec![
+                    (1, WGlyph::new(seac(65, 194, Some(50)), ints(&[50, 100, 200, 65, 194], to(op::ENDCHAR)), "seac")),
+                    (34, bw),
+                    (125, WGlyph::new(acute(), acute_toks(), "rlineto")),
+                ],
+                Vec::new(),
+                SubrSpace::empty(),
+                true,
+            ),
+        ));
+    }
+    // W4: base glyph declares 8 stems, accent declares 1 stem and uses a one byte hintmask
+    {
+        let stem = |v: i64| [Val::int(v), Val::int(v + 1)];
+        let mut bg = base_a();
+        bg.hints = Some(Hints { hstems: (0..8).map(|i| stem(i)).collect(), vstems: Vec::new(), masks: false });
+        let mut bt: Vec<Tok> = Vec::new();
+        for i in 0..8 {
+            bt.push(ti(i));
+            bt.push(ti(i + 1));
+        }
+        bt.push(to(op::HSTEM));
+        bt.extend(base_toks());
+        let mut ag = acute();
+        ag.hints = Some(Hints { hstems: vec![stem(1)], vstems: Vec::new(), masks: true });
+        let mut at: Vec<Tok> = ints(&[1, 2], to(op::HSTEMHM));
+        at.push(Tok::mask(op::HINTMASK, &[0x80]));
+        at.extend(acute_toks());
+        out.push((
+            "witness:seac-component-hintmask",
+            mk_built(
+                Flavour::Name,
+                150,
+                vec![
+                    (1, WGlyph::new(seac(65, 194, Some(50)), ints(&[50, 100, 200, 65, 194], to(op::ENDCHAR)), "seac")),
+                    (34, WGlyph::new(bg, bt, "rlineto")),
+                    (125, WGlyph::new(ag, at, "rlineto")),
+                ],
+                Vec::new(),
+                SubrSpace::empty(),
+                true,
+            ),
+        ));
+    }
+    // W5: CFF2 hvcurveto with 52 operands (13 curves; the CFF2 stack limit is 513)
+    {
+        let mut segs = Vec::new();
+        let mut args: Vec<i64> = Vec::new();
+        for j in 0..13i64 {
+            if j % 2 == 0 {
+                segs.push(cv([1 + j, 0, 2, 3, 0, 4]));
+                args.extend_from_slice(&[1 + j, 2, 3, 4]);
+            } else {
+                segs.push(cv([0, 1 + j, 2, 3, 4, 0]));
+                args.extend_from_slice(&[1 + j, 2, 3, 4]);
+            }
+        }
+        out.push(("witness:cff2-hvcurveto-52-operands", simple(segs, ints(&args, to(op::HVCURVETO)), "hvcurveto", Flavour::Cff2)));
+    }
+    // W6: CFF2 with two Font DICTs; glyph 1 belongs to Font DICT 1 and calls its local subroutine 0
+    {
+        let mut l0 = SubrSpace::with_candidates(1, vec![0]);
+        l0.alloc(ints(&[7, 7], to(op::RLINETO)));
+        let mut l1 = SubrSpace::with_candidates(1, vec![0]);
+        l1.alloc(ints(&[30, 40], to(op::RLINETO)));
+        let (call, _) = cffw::call_tok(0, 1, false, &mut Rng::new(1)).unwrap_or_else(|| unreachable!());
+        let mut w = WGlyph::new(base_a(), [mv(10, 20), vec![call]].concat(), "rlineto");
+        w.fd = 1;
+        w.local_calls = 1;
+        w.flat = Some([mv(10, 20), ints(&[30, 40], to(op::RLINETO))].concat());
+        out.push(("witness:cff2-local-subr-of-fd1", mk_built(Flavour::Cff2, 2, vec![(1, w)], vec![l0, l1], SubrSpace::empty(), false)));
+    }
+    // W7: CFF2 glyph without any outline (empty charstring)
+    out.push((
+        "witness:cff2-empty-glyph",
+        mk_built(Flavour::Cff2, 2, vec![(1, WGlyph::new(Glyph::default(), Vec::new(), "none"))], Vec::new(), SubrSpace::empty(), false),
+    ));
+    // control: CID font, glyph of Font DICT 1 calling its own local subroutine 0
+    {
+        let mut l0 = SubrSpace::with_candidates(1, vec![0]);
+        l0.alloc([ints(&[7, 7], to(op::RLINETO)), vec![to(op::RETURN)]].concat());
+        let mut l1 = SubrSpace::with_candidates(1, vec![0]);
+        l1.alloc([ints(&[30, 40], to(op::RLINETO)), vec![to(op::RETURN)]].concat());
+        let (call, _) = cffw::call_tok(0, 1, false, &mut Rng::new(1)).unwrap_or_else(|| unreachable!());
+        let mut w = WGlyph::new(base_a(), [mv(10, 20), vec![call, to(op::ENDCHAR)]].concat(), "rlineto");
+        w.fd = 1;
+        w.local_calls = 1;
+        w.flat = Some([mv(10, 20), ints(&[30, 40], to(op::RLINETO)), vec![to(op::ENDCHAR)]].concat());
+        out.push(("control:cid-local-subr-of-fd1", mk_built(Flavour::Cid, 2, vec![(1, w)], vec![l0, l1], SubrSpace::empty(), false)));
+    }
+    out
+}
+
 impl Prop for C18 {
     fn case(&mut self, cx: &mut Ctx, rng: &mut Rng) {
         self.run(cx, rng, None);
@@ -2519,6 +2941,16 @@ impl Prop for C18 {
             let mut rng = Rng::new(cx.case_seed);
             cx.class("directed-bias-case");
             self.run(cx, &mut rng, Some(d));
+        }
+        let base = cases.len();
+        for (i, (name, b)) in handwritten().into_iter().enumerate() {
+            if (base + i) as u64 % of != shard {
+                continue;
+            }
+            cx.case_seed = 0xC18_0000 + (base + i) as u64;
+            cx.evals += 1;
+            cx.class(&format!("handwritten:{}", name));
+            self.check(cx, b);
         }
     }
 }
